@@ -1,11 +1,13 @@
 from __future__ import annotations
 
+import copy
 import operator
 
 from datetime import date
 from datetime import datetime
 from datetime import timedelta
 from typing import TYPE_CHECKING
+from typing import Any
 from typing import Generic
 from typing import TypeVar
 from typing import cast
@@ -402,6 +404,15 @@ class Interval(Duration, Generic[_T]):
         self, protocol: SupportsIndex
     ) -> tuple[type[Self], tuple[_T, _T, bool]]:
         return self.__class__, self._getstate(protocol)
+
+    def __deepcopy__(self, memo: dict[int, Any]) -> Self:
+        # Duration.__deepcopy__ rebuilds from duration components,
+        # which the Interval constructor does not accept.
+        start, end, absolute = self._getstate()
+
+        return self.__class__(
+            copy.deepcopy(start, memo), copy.deepcopy(end, memo), absolute
+        )
 
     def __hash__(self) -> int:
         return hash((self.start, self.end, self._absolute))
